@@ -287,7 +287,6 @@ def _contacts(job):
             R.viol("contacts|%s|shape" % scheme, "distances %s for %d pairs" % (dist.shape, len(got_pairs)))
             continue
         # ---- values: every entry recomputed from its label ---------------------------------------
-        term_seen = set()
         for k, (ra, rb) in enumerate(got_pairs):
             ml_a, ml_b = memb["lib"][ra], memb["lib"][rb]
             if not ml_a or not ml_b:
@@ -339,19 +338,15 @@ def _contacts(job):
                 if want2 is None:
                     generic = r > 1.0
                 else:
-                    # the two readings of "side chain" differ for this pair: the chemical one is right, the library
-                    # predicate (terminal OXT/H1-3 included) is the known defect; anything else is a bookkeeping error
-                    R.evals += 1
+                    # the two readings of "side chain" differ for this pair; a value matching neither is a bookkeeping error
                     if abs(got - want2) <= tol:
-                        pass
+                        R.note("side-chain entries equal to the value WITHOUT terminal OXT/H1-3 (chemical reading)")
                     elif r <= 1.0:
-                        if capdiff:
-                            R.excl("cap residue (ACE/NME/NH2) with atoms named H1-3: side-chain membership undocumented, either accepted")
-                        elif (ra, rb) not in term_seen:
-                            term_seen.add((ra, rb))
-                            R.viol("contacts|%s|value|terminal-backbone-atoms-OXT-H123-designated-as-sidechain" % scheme,
-                                   "pair %s frame %d: got %.7g = value with OXT/H1-3 counted as side chain; without them %.7g" % (
-                                       (ra, rb), f, got, want2))
+                        # Atom.is_sidechain ("name not in {C,CA,N,O,HA,H}", pinned by tests/test_selection.py::test_sidechain)
+                        # counts terminal OXT/H1-3 as side chain; the contact docstring does not define "side chain":
+                        # either reading is accepted, the occurrence is recorded
+                        R.excl("side-chain entry equals the value with terminal OXT/H1-3 counted as side chain "
+                               "(library predicate; chemical reading differs; not judged)")
                     else:
                         generic = True
                 if generic:
